@@ -1,7 +1,47 @@
 import Driver.Common
-open Drv
+import KatdalModel.Model.Categorical
+open Np Drv Categorical
 
-/-- stub driver for C10: replaced when the property's model lands -/
-def step (_line : String) : String := "bad-op"
+namespace C10Drv
 
-def main : IO Unit := Drv.loop step
+def intList (s : String) : Option (List Int) := if s = "-" then some [] else parseIntList s
+def natList (s : String) : Option (List Nat) := if s = "-" then some [] else parseNatList s
+def optNat (s : String) : Option (Option Nat) := if s = "_" then some none else (s.toNat?).map some
+
+/-- transform given as a table over value codes (`_` = no transform); codes outside the table
+    are left unchanged -/
+def optTable (s : String) : Option (Option (Nat → Nat)) :=
+  if s = "_" then some none else
+  (natList s).map fun t => some (fun v => t.getD v v)
+
+def showL (l : List Nat) : String := if l.isEmpty then "-" else showNatList l
+
+def showCat (c : Cat Nat) : String := s!"{showL c.uniq}|{showL c.idx}|{showL c.ev}"
+
+/-- requests (all lists comma separated, `-` = empty list, `_` = None):
+    s2c  <ends> <period> <ts> <vals> <tr> <init> <greedy> <rep>   -> uniq|idx|ev of the mirror model
+    rule <ends> <period> <ts> <vals> <tr> <init> <greedy>         -> per-dump values of the spec, `U` = undefined
+    sepd <events> <greedymask>                                    -> yielded|mutated events of the mirror -/
+def step (line : String) : String :=
+  match line.splitOn " " with
+  | ["s2c", ends, period, ts, vals, tr, init, greedy, rep] =>
+    match intList ends, period.toInt?, intList ts, natList vals, optTable tr, optNat init, natList greedy with
+    | some ends, some period, some ts, some vals, some tr, some init, some greedy =>
+      showExcept showCat (sensorToCategorical ts vals ends period tr init greedy (rep = "1"))
+    | _, _, _, _, _, _, _ => "bad-op"
+  | ["rule", ends, period, ts, vals, tr, init, greedy] =>
+    match intList ends, period.toInt?, intList ts, natList vals, optTable tr, optNat init, natList greedy with
+    | some ends, some period, some ts, some vals, some tr, some init, some greedy =>
+      match rule ts vals ends period tr init greedy with
+      | some l => showL l
+      | none => "U"
+    | _, _, _, _, _, _, _ => "bad-op"
+  | ["sepd", events, mask] =>
+    match natList events, parseMask (if mask = "-" then "" else mask) with
+    | some ev, some g => showExcept (fun (o, e) => s!"{showL o}|{showL e}") (sepd ev g)
+    | _, _ => "bad-op"
+  | _ => "bad-op"
+
+end C10Drv
+
+def main : IO Unit := Drv.loop C10Drv.step
